@@ -59,7 +59,7 @@ META = {
             "TS1 / TS2 / nothing, TS2 with hot-reset / loopback / no-scrambling, idle completion delay or withheld) consumed "
             "cyclically; 0-6 faults, a third of them aligned to the cycle of an environment event; ~15 % fault-free",
 }
-TIERS = {"quick": {"runs": 800, "wall": 70}, "thorough": {"runs": 10000, "wall": 900}}
+TIERS = {"quick": {"runs": 1600, "wall": 70}, "thorough": {"runs": 10000, "wall": 900}}
 
 INPUTS = ["in_usb_reset", "power_on_reset", "trigger_link_recovery", "phy_ready", "disable_scrambling",
           "link_partner_detected", "no_link_partner_detected", "lfps_polling_detected", "lfps_cycles_sent",
